@@ -1968,9 +1968,9 @@ fn parse_week_day_number(s: &[u8]) -> Result<(WeekDay, &[u8])> {
         ));
     }
 
-    let num = s[0] - b'0';
-    if (1..=7).contains(&num) {
-        return Ok((WeekDay::from(num as usize), &s[1..]));
+    let ch = s[0];
+    if (b'1'..=b'7').contains(&ch) {
+        return Ok((WeekDay::from((ch - b'0') as usize), &s[1..]));
     }
 
     Err(Error::ParseError(
